@@ -47,6 +47,7 @@ def nni_neighbour(t, rng):
 
 class Check(PropCheck):
     pid = 'C06'
+    pure_predicate = True
     strict_err_ops = ('rf', 'rf_norm')
     rule = ('ordered pairs of leaf-labelled shapes with <= 5 leaves (all shape pairs, both root styles, mixed pairs; each under a random '
             'taxon permutation and child rotation), random pairs to 60 / 200 leaves (NNI-like neighbours so that distances are small '
